@@ -4,6 +4,7 @@ import (
 	"bytes"
 	"fmt"
 	"strings"
+	"testing/fstest"
 
 	"github.com/titpetric/vuego"
 
@@ -36,7 +37,7 @@ func c13Env() map[string]any {
 		"n": 5, "k": 2, "f": 1.5, "s": "str", "e": "", "t": true, "b": false, "ns": "42",
 		"sp1": "a b", "sp2": "a  b", "up": "A  b",
 		// variables whose names strconv would take for a boolean or a float
-		"T": 2, "nan": 4, "F": "eff", "big": 300, "minus": -1, "fbig": 1500000.0, "fsmall": 0.00002, "fneg": -2.5e7, "zp": "010", "zip": "08540", "eq3": "a===b", "ne3": "a!==b", "amp2": "a && b", "q3": "a ? b : c",
+		"T": 2, "nan": 4, "F": "eff", "big": 300, "minus": -1, "ix": 1, "kk": "k", "mm": map[string]any{"kk": "LIT", "k": "VAR"}, "fname": "secret.path", "secret": map[string]any{"path": "b.txt"}, "fbig": 1500000.0, "fsmall": 0.00002, "fneg": -2.5e7, "zp": "010", "zip": "08540", "eq3": "a===b", "ne3": "a!==b", "amp2": "a && b", "q3": "a ? b : c",
 		"m":  map[string]any{"k": "mk", "l": []any{"x", "y"}, "n": 7},
 		"l":  []int{10, 20},
 		"st": c13Struct{Field: "SF", Num: 3},
@@ -475,7 +476,7 @@ func (c *c13Case) Run(ctx *core.Ctx) {
 			}
 			obs[pos] = got
 			shape := c.Shape
-			if c.Part == "pipe" && (strings.HasPrefix(shape, "pipe:") || strings.HasPrefix(shape, "literal-arg:")) && (pos == "vif" || pos == "velseif" || pos == "vshow") {
+			if c.Part == "pipe" && (strings.HasPrefix(shape, "pipe:") || strings.HasPrefix(shape, "literal-arg:") || (strings.Contains(c.Expr, " | ") && shape != "pipe-dot-expr")) && (pos == "vif" || pos == "velseif" || pos == "vshow") {
 				shape = "filter-chain-in-condition"
 			}
 			if exp := c13Expected(pos, want); got != exp {
@@ -487,6 +488,27 @@ func (c *c13Case) Run(ctx *core.Ctx) {
 			}
 		}
 		ctx.Outcome(fmt.Sprint(obs))
+	case "file":
+		// file(), jsonFile(), yamlFile(): the argument's value is the file name - it is not looked up
+		// in the data a second time (there "secret.path" is the path to "b.txt")
+		fsys := fstest.MapFS{
+			"secret.path": {Data: []byte("BYNAME")}, "b.txt": {Data: []byte("BYPATH")},
+			"secret.json": {Data: []byte(`{"v":"JNAME"}`)}, "j.json": {Data: []byte(`{"v":"JPATH"}`)},
+		}
+		env := c13Env()
+		env["jname"] = "secret.json"
+		env["secret"] = map[string]any{"path": "b.txt", "json": "j.json"}
+		for _, pos := range []string{"mustache", "bind"} {
+			got, err := c13ObserveEnv(ctx, vuego.New(vuego.WithFS(fsys), vuego.WithFuncs(c13Funcs())), pos, c.Expr, env)
+			if err != nil {
+				ctx.Violation("expr-error", pos, c.Shape, fmt.Sprintf("%s in %s: render failed: %v (reference value %s)", c.Expr, pos, err, c.Want))
+				continue
+			}
+			ctx.Outcome(got)
+			if got != strings.TrimPrefix(c.Want, "string:") {
+				ctx.Violation("wrong-value", pos, c.Shape, fmt.Sprintf("%s in %s: observed %q, the file named by the argument's value gives %s", c.Expr, pos, got, c.Want))
+			}
+		}
 	case "shadow":
 		// variables named like functions of the expression library (front-matter keys such as
 		// type and date, a loop variable called last): the name means the variable
@@ -510,6 +532,60 @@ func (c *c13Case) Run(ctx *core.Ctx) {
 					mode = "evaluates-to-nothing"
 				}
 				ctx.Violation(mode, pos, c.Shape, fmt.Sprintf("%s in %s: observed %q, conventional value %s gives %q", c.Expr, pos, got, c.Want, exp))
+			}
+		}
+	case "nilshadow":
+		// a loop variable bound to nil shadows an outer variable of the same name in every position
+		// (the path resolver and the expression environment must agree on what the name means)
+		want := parseCanon(c.Want)
+		for _, pos := range c13Positions {
+			q := `"`
+			var tpl string
+			switch pos {
+			case "mustache":
+				tpl = `<p id="r">[{{ ` + c.Expr + ` }}]</p>`
+			case "bind":
+				tpl = `<p id="r" :title=` + q + c.Expr + q + `>x</p>`
+			case "vif":
+				tpl = `<p id="r" v-if=` + q + c.Expr + q + `>x</p>`
+			case "velseif":
+				tpl = `<b v-if="b">n</b><p id="r" v-else-if=` + q + c.Expr + q + `>x</p>`
+			case "vshow":
+				tpl = `<p id="r" v-show=` + q + c.Expr + q + `>x</p>`
+			}
+			env := c13Env()
+			env["note"], env["notes"] = "outer", []any{nil}
+			var buf bytes.Buffer
+			ctx.Eval(1)
+			if err := vuego.New(vuego.WithFuncs(c13Funcs())).Fill(env).RenderString(bg, &buf, `<div v-for="note in notes">`+tpl+`</div>`); err != nil {
+				ctx.Violation("expr-error", pos, c.Shape, fmt.Sprintf("%s in %s: %v", c.Expr, pos, err))
+				continue
+			}
+			r := htmlcmp.ByID(htmlcmp.Parse(buf.String()), "r")
+			got := ""
+			switch pos {
+			case "mustache":
+				if r != nil {
+					got = strings.TrimSuffix(strings.TrimPrefix(htmlcmp.Text(r), "["), "]")
+				}
+			case "bind":
+				got = "<omitted>"
+				if r != nil {
+					if v, ok := htmlcmp.Attr(r, "title"); ok {
+						got = v
+					}
+				}
+			case "vif", "velseif":
+				got = fmt.Sprint(r != nil)
+			case "vshow":
+				st := ""
+				if r != nil {
+					st, _ = htmlcmp.Attr(r, "style")
+				}
+				got = fmt.Sprint(!strings.Contains(strings.ReplaceAll(st, " ", ""), "display:none"))
+			}
+			if exp := c13Expected(pos, want); got != exp {
+				ctx.Violation("wrong-value", pos, c.Shape, fmt.Sprintf("%s in %s with the loop variable bound to nil over an outer variable of that name: observed %q, want %q", c.Expr, pos, got, exp))
 			}
 		}
 	case "retype":
@@ -663,7 +739,7 @@ func init() {
 		ID:    "C13",
 		Level: "exploration",
 		Rule: "expression part: all type-correct expression trees up to the bound over 21 leaves (paths into ints/floats/strings/bools/nested maps/slices/struct, undefined, literals in both quote styles) and 15 binary operators, !, ?: and parentheses (spaced and unspaced variants), each observed in 5 positions ({{ }}, :attr, v-if, v-else-if, v-show) against a reference evaluator; " +
-			"pipe part: every chain up to the bound over 19 filter stages (built-ins and registered functions with int/float/string/bool/variadic/context parameters, arguments as literals in both quote styles, numbers, variables) from 6 initial values, plus every string literal argument of <=3 tokens over {letter, the other quote character, space, comma, parentheses, pipe, dash, dot, colon} in both quote styles against direct application of the Go functions; shadow part: 15 expressions over variables named like functions of the expression library (type, date, last, one, first, min, max, count, sum, map, filter, keys) in the 5 positions; retype part: every expression of depth <= 1 evaluated on one engine after an evaluation of the same text with the variables as float64 / as strings / absent must have the value it has alone; error part: unknown function, wrong arity, impossible conversion, function error in 4 positions must fail naming the function. non-trivial = all",
+			"pipe part: every chain up to the bound over 19 filter stages (built-ins and registered functions with int/float/string/bool/variadic/context parameters, arguments as literals in both quote styles, numbers, variables) from 6 initial values, plus every string literal argument of <=3 tokens over {letter, the other quote character, space, comma, parentheses, pipe, dash, dot, colon} in both quote styles against direct application of the Go functions; shadow part: 15 expressions over variables named like functions of the expression library (type, date, last, one, first, min, max, count, sum, map, filter, keys) in the 5 positions; nil-shadow part: 6 expressions over a loop variable bound to nil that shadows an outer variable, in the 5 positions; retype part: every expression of depth <= 1 evaluated on one engine after an evaluation of the same text with the variables as float64 / as strings / absent must have the value it has alone; error part: unknown function, wrong arity, impossible conversion, function error in 4 positions must fail naming the function. non-trivial = all",
 		Bounds:      map[string]string{"quick": "expression depth <= 2 (one compound operand), pipe chains of length <= 2", "thorough": "expression depth <= 2, pipe chains of length <= 3"},
 		Assumptions: []string{"only exact integer divisions, same-type equalities and bool operands of && || are generated (conventions differ elsewhere)", "string form of float arithmetic is unconstrained", "int->float/float->int parameter conversions are unconstrained"},
 		Decode:      core.DecodeAs[c13Case](),
@@ -681,6 +757,25 @@ func init() {
 				{"len(s) + one", "int:4"}, {"type == 'post' && last > max", "bool:true"}, {"n + 1", "int:6"},
 			} {
 				emit(&c13Case{Part: "shadow", Expr: e.src, Shape: "variable-named-like-a-library-function", Want: e.want})
+			}
+			for _, e := range []struct{ src, want string }{{"note == nil", "bool:true"}, {"note ? 'set' : 'unset'", "string:unset"}, {"!note", "bool:true"}, {"note || t", "bool:true"}, {"note && t", "bool:false"}, {"note != 'outer'", "bool:true"}} {
+				emit(&c13Case{Part: "nilshadow", Expr: e.src, Shape: "nil-binding-shadows-outer-variable", Want: e.want})
+			}
+			// a name in brackets is a variable; expressions at the head of a pipe; calls as arguments; paths that end in nothing
+			for _, e := range []struct{ part, src, shape, want string }{
+				{"expr", "l[ix]", "variable-index", "int:20"}, {"expr", "m[kk]", "variable-index", "string:mk"}, {"expr", "mm[kk]", "variable-index", "string:VAR"}, {"pipe", "mm[kk] | shout", "variable-index", "string:VAR!"}, {"expr", "mm[kk] == 'VAR'", "variable-index", "bool:true"}, {"expr", "m.l[ix]", "variable-index", "string:y"}, {"expr", "l[ix] + 1", "variable-index", "int:21"},
+				{"pipe", "l[ix] | double", "variable-index", "int:40"}, {"pipe", "m[kk] | shout", "variable-index", "string:MK!"},
+				{"pipe", "!b | shout", "pipe:expression-head", "string:TRUE!"}, {"pipe", "n>k | shout", "pipe:expression-head", "string:TRUE!"},
+				{"pipe", "double(addn(n, 3))", "call:nested", "int:16"}, {"pipe", "n | addn(double(k))", "call:nested", "int:9"}, {"pipe", "addn(double(n), double(k))", "call:nested", "int:14"}, {"pipe", "shout(prefix(s, 'a,b'))", "call:nested", "string:A,BSTR!"},
+				{"pipe", "e | default(m.zz) | shout", "path-argument-to-nothing", "string:!"}, {"pipe", "e | default(l[9]) | shout", "path-argument-to-nothing", "string:!"},
+			} {
+				emit(&c13Case{Part: e.part, Expr: e.src, Shape: e.shape, Want: e.want})
+			}
+			for _, e := range [][2]string{
+				{"file(fname)", "BYNAME"}, {"fname | file", "BYNAME"}, {"file('secret.path')", "BYNAME"}, {"'secret.path' | file", "BYNAME"}, {"file(secret.path)", "BYPATH"},
+				{"fname | file | shout", "BYNAME!"}, {"jsonFile(jname) | json", `{"v":"JNAME"}`}, {"jname | jsonFile | json", `{"v":"JNAME"}`},
+			} {
+				emit(&c13Case{Part: "file", Expr: e[0], Shape: "file-by-name", Want: "string:" + e[1]})
 			}
 			// floats whose string form has an exponent: one value, one text in every position
 			for _, e := range []struct {
